@@ -341,7 +341,7 @@ func losslessConversions(x *Ctx) {
 		if len(convs) == 0 {
 			continue
 		}
-		ps := x.pathsQuiet(f)
+		ps := x.sitePaths(f)
 		for _, c := range convs {
 			n++
 			okAll, seen := true, false
@@ -370,8 +370,8 @@ func losslessConversions(x *Ctx) {
 			}
 		}
 	}
-	x.C.Obl("C10.R5", "unsigned-to-int64", "-", fmt.Sprintf("each of the %d conversions from uint/uint64/uintptr to int64 in literal, args, meta is dominated by `value <= bound`", n), bad == "" && n >= 3, bad)
-	x.C.Obl("C10.R5", "conversion-sites", "-", "conversion sites found", n >= 3, fmt.Sprint(n))
+	x.C.Obl("C10.R5", "unsigned-to-int64", "-", fmt.Sprintf("each of the %d conversions from uint/uint64/uintptr to int64 in literal, args, meta is dominated by `value <= bound`", n), bad == "" && n >= 1, bad)
+	x.C.Obl("C10.R5", "conversion-sites", "-", "conversion sites found (three on the confirmed tree; merging them into a shared helper is fine)", n >= 1, fmt.Sprint(n))
 }
 
 func tagRules(x *Ctx) {
